@@ -10,8 +10,8 @@ import (
 )
 
 func init() {
-	register("C42", []string{"."}, runC42)
-	propExplain["C42"] = "Decides lock-discipline clauses of C42 (races are dynamic; this is the static part): every access to a field that DB.mu protects (the fields of the DB.mu struct, minus the documented atomics / pipeline-protected fields) happens with DB.mu held, established by an intra-procedural lock state plus requires-held summaries over static and interface callees, with the calling context of every root (exported entry points, goroutine bodies, callbacks) either holding the lock or documented; the same analysis for the version set's second lock: the MANIFEST writer (versionSet.manifest) and latest.blobFiles, which UpdateVersionLocked mutates while DB.mu is released, are accessed only between logLock and logUnlock; and the documented lock order is respected: no function acquires commitPipeline.mu while it holds DB.mu. (F1) the in-progress flags that serialise work across drops of DB.mu (compact.flushing, versionSet.writing) are set only on the edge where they were tested clear, and only by their owner functions. (L4) DB.readState.val is read and replaced only with DB.readState's RWMutex held (or after the DB was marked closed). (B1/B2) lock balance: every function leaves every mutex as it found it — for DB.mu, commitPipeline.mu, the manifest log lock, DB.readState and every sync.Mutex/RWMutex field of a struct declared in a loaded engine package: no return with a lock still held, none with one unlock too many; deferred unlocks and re-locks and hand-over helpers are modelled. (L2b) DB.mu is never acquired while EventuallyFileOnlySnapshot.mu is held. Does not decide data races on unprotected fields, deadlock freedom in general, or panics. (V1) the version-edit builders that name existing tables or blob files (marking migration, ingestApply, blob-file rewrite) read the current version inside the UpdateVersionLocked closure; nothing derived from a read made before the manifest lock was taken is captured by it."
+	register("C42", []string{".", "./internal/cache"}, runC42)
+	propExplain["C42"] = "Decides lock-discipline clauses of C42 (races are dynamic; this is the static part): every access to a field that DB.mu protects (the fields of the DB.mu struct, minus the documented atomics / pipeline-protected fields) happens with DB.mu held, established by an intra-procedural lock state plus requires-held summaries over static and interface callees, with the calling context of every root (exported entry points, goroutine bodies, callbacks) either holding the lock or documented; the same analysis for the version set's second lock: the MANIFEST writer (versionSet.manifest) and latest.blobFiles, which UpdateVersionLocked mutates while DB.mu is released, are accessed only between logLock and logUnlock; and the documented lock order is respected: no function acquires commitPipeline.mu while it holds DB.mu. (F1) the in-progress flags that serialise work across drops of DB.mu (compact.flushing, versionSet.writing) are set only on the edge where they were tested clear, and only by their owner functions. (L4) DB.readState.val is read and replaced only with DB.readState's RWMutex held (or after the DB was marked closed). (B1/B2) lock balance: every function leaves every mutex as it found it — for DB.mu, commitPipeline.mu, the manifest log lock, DB.readState and every sync.Mutex/RWMutex field of a struct declared in a loaded engine package: no return with a lock still held, none with one unlock too many; deferred unlocks and re-locks and hand-over helpers are modelled. (L2b) DB.mu is never acquired while EventuallyFileOnlySnapshot.mu is held. Does not decide data races on unprotected fields, deadlock freedom in general, or panics. (V1) the version-edit builders that name existing tables or blob files (marking migration, ingestApply, blob-file rewrite) read the current version inside the UpdateVersionLocked closure; nothing derived from a read made before the manifest lock was taken is captured by it. (T1, shared with C34.P2) the block cache's read-turn token is never consumed without the turn being taken, the value being present, or the waiter waiting again (otherwise every other reader of that block blocks forever)."
 	propTechnique["C42"] = "lockset analysis (SSA lock state + requires-held summaries over the call graph) for four locks, lock-order checks, lock-balance dataflow over every mutex field, flag-ownership guards"
 }
 
@@ -43,6 +43,7 @@ var c42Held = map[string]string{
 }
 
 func runC42(c *Ctx) {
+	runReadTurnToken(c, "C42.T1")
 	versionReadUnderManifestLock(c, "C42.V1", "p.(*DB).markFilesForCompactionLocked", "p.(*DB).ingestApply", "p.(*blobFileRewriteCompaction).Execute")
 	lock, unlock, muType := dbMuMatchers(c, "C42.L1")
 	st, _ := muType.Underlying().(*types.Struct)
